@@ -86,11 +86,23 @@ func runDeferredCase(c *dfCase, dir string) (string, string) {
 	if c.C.Pre {
 		os.WriteFile(path, junk, 0o644)
 	}
+	// a stream target without an explicit format option writes a CARv1 whatever else the stream can do:
+	// every other such case hands over an *os.File (which is also an io.WriterAt) as the stream
+	var streamFile *os.File
 	if c.C.Target == "stream" {
 		if !c.C.V1 {
 			opts = append(opts, carv2.WriteAsCarV1(false)) // said explicitly: must win over the constructor's default
 		}
-		w = deferred.NewDeferredCarWriterForStream(&plainWriter{&stream}, idsToCids(c.Roots), opts...)
+		if c.C.V1 && len(c.Hist)%2 == 1 {
+			spath := filepath.Join(dir, "stream.car")
+			os.Remove(spath)
+			defer os.Remove(spath)
+			streamFile, _ = os.OpenFile(spath, os.O_CREATE|os.O_TRUNC|os.O_RDWR, 0o644)
+			defer streamFile.Close()
+			w = deferred.NewDeferredCarWriterForStream(streamFile, idsToCids(c.Roots), opts...)
+		} else {
+			w = deferred.NewDeferredCarWriterForStream(&plainWriter{&stream}, idsToCids(c.Roots), opts...)
+		}
 	} else {
 		if c.C.V1 {
 			opts = append(opts, carv2.WriteAsCarV1(true))
@@ -100,6 +112,10 @@ func runDeferredCase(c *dfCase, dir string) (string, string) {
 	type fire struct{ id, n int }
 	var log []fire
 	observe := func() ([]byte, bool) {
+		if streamFile != nil {
+			b, err := os.ReadFile(streamFile.Name())
+			return b, err == nil && len(b) > 0
+		}
 		if c.C.Target == "stream" {
 			return stream.Bytes(), stream.Len() > 0
 		}
